@@ -99,6 +99,17 @@ def op_block_default_if(g, cond):
         yield "c"
 
 
+def op_block_if_zero(g, cond):
+    # 0 is a perfectly good token: only None / "" switch a default block_if off
+    with g.block_if("area", 0):
+        yield "network x"
+
+
+def op_block_if_false_token(g, cond):
+    with g.block_if("unit", 0 if cond else ""):
+        yield "c"
+
+
 OPS = [
     (op_noop, lambda c: []),
     (op_a, lambda c: [("a",)]),
@@ -112,18 +123,20 @@ OPS = [
     (op_g, lambda c: [("g 5",)]),
     (op_nested, lambda c: [("s 1",), ("s 1", "p"), ("s 1", "p", "q"), ("s 1", "g 7")]),
     (op_block_default_if, lambda c: [("b 1",), ("b 1", "c")] if c else [("c",)]),
+    (op_block_if_zero, lambda c: [("area 0",), ("area 0", "network x")]),
+    (op_block_if_false_token, lambda c: [("unit 0",), ("unit 0", "c")] if c else [("c",)]),
 ]
 
 # programs: (ops..., cond)
 PROGS = [(i,) for i in range(len(OPS))] + [
     (1, 3), (3, 4), (4, 3), (5, 1), (6, 3), (7, 2), (3, 8), (9, 3), (10, 1), (1, 9), (2, 2), (3, 3),
-    (1, 3, 5), (3, 6, 4), (10, 9, 1), (7, 4, 6), (5, 10, 3), (11, 1), (11, 3, 9), (2, 11, 5),
+    (1, 3, 5), (3, 6, 4), (10, 9, 1), (7, 4, 6), (5, 10, 3), (11, 1), (11, 3, 9), (2, 11, 5), (12, 1), (13, 3),
 ]
-PROGS = [(p, True) for p in PROGS] + [(p, False) for p in PROGS if 5 in p or 11 in p]
+PROGS = [(p, True) for p in PROGS] + [(p, False) for p in PROGS if 5 in p or 11 in p or 13 in p]
 PROGS_Q = PROGS[:24] + PROGS[-6:]
 
 ACLS = [
-    "a\nb *\n    c\n    d *\n    e\n    n *\n        c\ninterface *\n    mtu\n",
+    "a\nb *\n    c\n    d *\n    e\n    n *\n        c\ninterface *\n    mtu\narea *\n    network\nunit *\n    c\n",
     "b *\n    e\n    c\n    d *\ninterface *\n    mtu\ng ~ %global\ns *\n    ~ %global\n",
     "g ~ %global\ns *\n    ~ %global\na\n",
     "a %cant_delete=1\nb * %cant_delete=1\n    c\n    e\n    d *\n    n *\n        c\n",
